@@ -166,7 +166,7 @@ var blockType = reflect.TypeOf(Block{})
 func unsnakeMatcher(snake string) func(string) bool {
 	u := strings.ReplaceAll(snake, "_", "")
 	return func(s string) bool {
-		return strings.EqualFold(s, u)
+		return strings.EqualFold(strings.ReplaceAll(s, "_", ""), u)
 	}
 }
 
